@@ -1013,24 +1013,60 @@ func (ts *TermStore) Subst(t, from, to *Term) *Term {
 }
 
 // Skolemize replaces universally quantified variables in positive positions of a goal by fresh constants.
-func (ts *TermStore) Skolemize(g *Term) *Term { return ts.skolem(g, true) }
+func (ts *TermStore) Skolemize(g *Term) *Term {
+	hq := map[int]bool{}
+	var hasQ func(t *Term) bool
+	hasQ = func(t *Term) bool {
+		if v, ok := hq[t.id]; ok {
+			return v
+		}
+		v := t.kind == kQuant
+		if !v && t.sort == SBool {
+			for _, a := range t.args {
+				if a.sort == SBool && hasQ(a) {
+					v = true
+					break
+				}
+			}
+		}
+		hq[t.id] = v
+		return v
+	}
+	return ts.skolemM(g, true, hasQ, map[[2]int]*Term{})
+}
+
+func (ts *TermStore) skolemM(g *Term, pos bool, hasQ func(*Term) bool, memo map[[2]int]*Term) *Term {
+	if !hasQ(g) {
+		return g
+	}
+	k := [2]int{g.id, 0}
+	if pos {
+		k[1] = 1
+	}
+	if r, ok := memo[k]; ok {
+		return r
+	}
+	r := ts.skolem1(g, pos, func(t *Term, p bool) *Term { return ts.skolemM(t, p, hasQ, memo) })
+	memo[k] = r
+	return r
+}
 
 // skolem replaces by fresh constants the quantifiers of a goal that are universal in effect: forall at positive
 // polarity, exists at negative polarity (antecedents, under not). Only and / or / not / => / the branches of a
 // boolean ite are descended into; validity of the goal is preserved.
-func (ts *TermStore) skolem(g *Term, pos bool) *Term {
+func (ts *TermStore) skolem1(g *Term, pos bool, rec func(*Term, bool) *Term) *Term {
 	switch {
 	case g.kind == kQuant && ((g.op == "forall" && pos) || (g.op == "exists" && !pos)):
 		sk := ts.Fresh("sk!"+strings.Trim(g.args[0].op, "?"), g.args[0].sort)
-		return ts.skolem(ts.Subst(g.args[1], g.args[0], sk), pos)
+		return rec(ts.Subst(g.args[1], g.args[0], sk), pos)
 	case g.kind == kApp && g.op == "not" && len(g.args) == 1:
-		in := ts.skolem(g.args[0], !pos)
+		in := rec(g.args[0], !pos)
 		if in == g.args[0] {
 			return g
 		}
 		return ts.Not(in)
 	case g.kind == kApp && g.op == "=>" && len(g.args) == 2:
-		a, b := ts.skolem(g.args[0], !pos), ts.skolem(g.args[1], pos)
+		a, b := rec(g.args[0], !pos), rec(g.args[1], pos)
 		if a == g.args[0] && b == g.args[1] {
 			return g
 		}
@@ -1039,7 +1075,7 @@ func (ts *TermStore) skolem(g *Term, pos bool) *Term {
 		na := make([]*Term, len(g.args))
 		same := true
 		for i, a := range g.args {
-			na[i] = ts.skolem(a, pos)
+			na[i] = rec(a, pos)
 			same = same && na[i] == a
 		}
 		if same {
@@ -1047,7 +1083,7 @@ func (ts *TermStore) skolem(g *Term, pos bool) *Term {
 		}
 		return ts.mk(kApp, g.op, SBool, na...)
 	case g.kind == kApp && g.op == "ite" && g.sort == SBool:
-		a, b := ts.skolem(g.args[1], pos), ts.skolem(g.args[2], pos)
+		a, b := rec(g.args[1], pos), rec(g.args[2], pos)
 		if a == g.args[1] && b == g.args[2] {
 			return g
 		}
